@@ -4,11 +4,16 @@ RULE = ("grammar-generated well-formed btor2 files over the whole supported oper
         "constants in radix 2/10/16 incl. signed and short spellings, array read/write/ite/eq, init of arrays from bit-vectors) at widths "
         "1..200 (incl. 63..65, 127..129) and a small-width profile 1..4, with negated operand ids (1/5), random non-monotonic line ids, randomly "
         "interleaved line order respecting definition-before-use; 1/3 of them with one sort-/operand-/operator-breaking mutation; mutated and unmutated "
-        "an array-sort mutation (an array-valued line annotated with a DIFFERENT array sort) and an init/next-value mutation; shipped files (<= 300 lines; ALL 116 unmutated in the files stream); edge templates. Per accepted text 4 valuations (all zero, all ones, 2 random "
+        "an array-sort mutation (an array-valued line annotated with a DIFFERENT array sort) and an init/next-value mutation; shipped files (<= 300 lines; ALL 116 unmutated in the files stream); edge templates; "
+        "post-processing templates (4% of the cases: 2..4 states of which half have neither init nor next and are read by outputs / bad states / next and init functions of other states, "
+        "labels with `$`, duplicated labels, a plain state labelled like an input or like a reader default, states renamed through uext-by-0 / full-slice aliases and output labels, "
+        "ignored yosys-path and $flatten names, array states, shuffled line order). Per accepted text 4 valuations (all zero, all ones, 2 random "
         "with corner values; arrays affine functions of the index) derived from the case's vseed. distinct = distinct texts")
 ASSUMPTIONS = [
     "Spec/Btor2Sem.v is the reference semantics of btor2 (written from the format definition; bit-vector operators are the SMT-LIB ones of Spec/BV.v); it shares only the lexical layer (tokens, number readers) with the model of the reader",
-    "Model/Btor2Parse.v mirrors parse.rs/context.rs/types.rs (tied by differential execution on every case, system compared incl. names)",
+    "Model/Btor2Parse.v mirrors parse.rs/context.rs/types.rs (tied by differential execution on every case: the FINAL system parse_str returns - after improve_state_names and the demotion of states "
+    "without init and next - is compared with the model's final system incl. symbol and output names: demote(raw) with the renaming applied at the leaves on every case, and the eagerly computed "
+    "Model.parse_text_v (the object of C08_final_* / C18_final_*) whenever a renaming took place and the trees are small)",
     "expression values of the implementation's system are computed by the extracted Spec/Eval.v (ebv/earr), i.e. the meaning of the IR is the one fixed for all properties (C06 ties it to patronus' own evaluator)",
     "arrays are compared at all indices for index widths <= 8, at 9 sampled indices above; texts with widths above 65536 or array equality over index sorts wider than 10 bits are skipped (counted)",
 ]
@@ -34,7 +39,8 @@ MANIFEST = dict(
     level_text=("Coq theorems relating the executable model of the btor2 reader (Model/Btor2Parse.v) to a reference interpreter for btor2 written from the format "
                 "definition (Spec/Btor2Sem.v), for all texts and all valuations. Tie to /repo: on every run the real parse_str result is evaluated by the extracted "
                 "Spec/Eval.v and compared with the extracted reference interpreter run on the text; the model is compared with the implementation structurally."),
-    level_note=("For the repaired reader (code_variant = Fix, patches/000N-fix-btor2-*.diff) C08_rejects_ill_formed_fix extends the rejection theorem to zero-width sorts and "
+    level_note=("C08_final_system_sound(+_profiles, _induced), C08_final_rejects_ill_formed, C08_final_renaming are about the FINAL system (after name improvement and demotion; "
+                "a demoted state is read from the input valuation: Spec/Btor2FinalSpec.v final_env_agrees); the older theorems are about the raw system. For the repaired reader (code_variant = Fix, patches/000N-fix-btor2-*.diff) C08_rejects_ill_formed_fix extends the rejection theorem to zero-width sorts and "
                 "non-Boolean bad/constraint lines; for Fix2 (= Fix + prepared patches/0008-fix-btor2-writer-no-array-alias.diff and 0009-fix-btor2-ext-operand-bitvector.diff, not applied in /repo yet) "
                 "C08_rejects_ill_formed_fix2 also covers uext/sext of an array, i.e. every error the interpreter reports under a name of its own. Trusted: Coq kernel; Btor2Sem.v as the meaning of btor2; hand-written model tied by differential execution. Of the code today: uext/sext by 0 of an array is accepted and "
                 "well-formed constants wider than 128 bits are rejected (baa): recorded as known findings."),
